@@ -146,6 +146,16 @@ FmtVerdict(c, xfs, o) ==
        IF xf.custom THEN (IF o.fmt = xf.code THEN "ok" ELSE "bad")
        ELSE IF xf.id \in EcmaFmtIds THEN (IF o.fid = xf.id THEN "ok" ELSE "bad")
        ELSE "skip"
+(* the same demand on the number format the loaded workbook writes down: the driver sends the loaded workbook through
+   write_writer + read_reader in memory and reports the cell's format again (fid2 / fmt2; h2 = the cell is there).  This
+   looks at what the loaded workbook holds beyond its getters (a declared format that the load marked as not to be
+   written shows the right code through the getter and another one after the save), not at the writer in general. *)
+FmtVerdict2(c, xfs, o) ==
+  IF ~ValidStyle(c, xfs) \/ ~o.h2 THEN "skip"
+  ELSE LET xf == DecodeFmt(c, xfs) IN
+       CASE FmtDemand(xf) = "code" -> (IF o.fmt2 = xf.code THEN "ok" ELSE "bad")
+         [] FmtDemand(xf) = "id"   -> (IF o.fid2 = xf.id THEN "ok" ELSE "bad")
+         [] OTHER                  -> "skip"
 IsGeneral(c, xfs) == ValidStyle(c, xfs) /\ ~DecodeFmt(c, xfs).custom /\ DecodeFmt(c, xfs).id = 0
 
 (* ---- one item: the set of verdicts of its parts ------------------------------------ *)
@@ -153,7 +163,7 @@ ValueValid(c, nsst) == c.t \in CellTypes /\ ValidValue(c, nsst)
 ItemVerdicts(it, sst, xfs, m) ==
   LET c == it.raw  o == it.obs IN
   IF it.rp /\ it.op
-  THEN {IF ValueValid(c, Len(sst)) THEN ValueVerdict(c, sst, o) ELSE "skip"} \cup FormulaVerdict(c, m, o) \cup {FmtVerdict(c, xfs, o)}
+  THEN {IF ValueValid(c, Len(sst)) THEN ValueVerdict(c, sst, o) ELSE "skip"} \cup FormulaVerdict(c, m, o) \cup {FmtVerdict(c, xfs, o), FmtVerdict2(c, xfs, o)}
   ELSE IF it.rp                    \* the library has no cell here: fine iff the file's cell is empty and unformatted
   THEN IF ~ValueValid(c, Len(sst)) THEN {"skip"}
        ELSE IF NormVal(DecodeValue(c, sst)) = Blank /\ c.f.k = "none" /\ IsGeneral(c, xfs) THEN {"ok"} ELSE {"bad"}
@@ -174,7 +184,8 @@ Fold(items, i, sst, xfs, m, p, acc) ==
             Append(acc, ItemVerdicts(items[i], sst, xfs, m) \cup PosVerdict(items[i], p)))
 
 Brief(it) == [r |-> it.r, c |-> it.c, t |-> it.raw.t, v |-> it.raw.v, f |-> it.raw.f.text, si |-> it.raw.f.si,
-              ok |-> it.obs.k, ov |-> it.obs.runs, ob |-> it.obs.b, of |-> it.obs.f, ofid |-> it.obs.fid]
+              ok |-> it.obs.k, ov |-> it.obs.runs, ob |-> it.obs.b, of |-> it.obs.f, ofid |-> it.obs.fid, ofmt |-> it.obs.fmt,
+              ofid2 |-> it.obs.fid2, ofmt2 |-> it.obs.fmt2]
 Report(e, v) ==
   LET bad == {i \in DOMAIN v : "bad" \in v[i]}
       gen == {i \in DOMAIN v : "gen" \in v[i]}
